@@ -1,26 +1,28 @@
 (* C47 — The config reloader applies the latest configuration.
-   One apply call of the reloader on a file-system snapshot (config file [cfg],
-   config directory [dir] with distinct file names), for every reloader state
-   [s] (hence after every history of edits, additions, removals and reload
-   failures), every environment [env], with or without tolerated expansion
-   errors, every script of the reload endpoint ([fails] failures then success,
-   or the retry window running out [give_up]).
+   The theorems describe the code WITH repo_patches/C47-fix.patch.
+   [apply] is one Reloader.apply call on a file-system snapshot (config file
+   [cfg], config directory [dir] with distinct file names) from ANY reloader
+   state [s] (hence after every history of edits, additions, removals and reload
+   failures), for every environment [env], with or without tolerated expansion
+   errors, and every script of the reload endpoint ([fails] failures then
+   success, or the retry window running out: [give_up]). [watch] is the endless
+   loop of Watch as a state machine over events (debounced file notification /
+   watch interval elapsed / context cancelled).
    sha256 is modelled as the identity on (name, content) lists. *)
 From Coq Require Import NArith ZArith List Bool String.
 Import ListNotations.
 From Verif Require Import Lib.Corr Lib.Misc_Cmp Gen.C47 Model.C47 Proofs.C47.
 
-(* When apply returns without error:
+(* One apply call that returns without error:
    - every output equals its input with the environment substituted;
    - the reload endpoint is called iff a previous reload is still pending
      ([force]) or the content differs from the one recorded at the last
      successful reload;
-   - a successful reload (after [fails] retried failures) records the content and
-     clears the pending flag; an unsuccessful one leaves the record unchanged and
-     the flag set, so the next apply retries;
-   - the set of output files is recorded, and if the outputs present stem from
-     the last complete pass ([synced]) the output directory afterwards holds
-     only files whose inputs exist (outputs of vanished inputs are removed). *)
+   - a successful reload (after [fails] retried failures) records the content
+     and clears the pending flag; an unsuccessful one leaves the record unchanged
+     and sets the flag;
+   - if every output present is recorded ([synced], an invariant: next theorem)
+     the output directory afterwards holds only files whose inputs exist. *)
 Theorem C47_apply : forall has_cfg env tolerate s cfg dir fails give_up s' r,
   apply has_cfg env tolerate s cfg dir fails give_up = (s', r) ->
   r_err r = false -> NoDup (map fst dir) ->
@@ -37,28 +39,92 @@ Theorem C47_apply : forall has_cfg env tolerate s cfg dir fails give_up s' r,
 Proof. exact apply_spec. Qed.
 Print Assumptions C47_apply.
 
-(* The removal clause needs [synced]: a pass that fails half-way (unset
-   variable, not tolerated) has written outputs it does not record; if such an
-   input disappears, its output stays. Witness replayed on the implementation:
-   corpus/C47/01 (known finding). *)
-Theorem C47_removal_after_error_pass_refuted :
-  let s1 := fst (apply false w_env false init None [(fa, [120%N])] 0 false) in
-  let s2 := fst (apply false w_env false s1 None [(fa, [120%N]); (fb, [121%N]); (fc, bad)] 0 false) in
-  let '(s3, r3) := apply false w_env false s2 None [(fa, [120%N])] 0 false in
-  r_err r3 = false /\ out_dir s3 = [(fa, [120%N]); (fb, [121%N])].
-Proof. exact error_pass_leaves_stale_output. Qed.
-Print Assumptions C47_removal_after_error_pass_refuted.
+(* [synced] holds initially and after every apply call, failing or not: outputs
+   of vanished inputs are removed by the next complete pass, whatever happened
+   before. *)
+Theorem C47_synced_invariant : forall has_cfg env tolerate,
+  synced init
+  /\ forall s cfg dir fails give_up,
+       synced s -> synced (fst (apply has_cfg env tolerate s cfg dir fails give_up)).
+Proof. intros. split; [exact synced_init | intros; apply apply_synced; assumption]. Qed.
+Print Assumptions C47_synced_invariant.
 
-(* Tie T: the reload decision and the removal guard are those of the source. *)
-Theorem C47_decision_source : decision_ok = true.
-Proof. exact decision_fact. Qed.
+(* Before the repair this was false: a pass failing half-way (unset variable,
+   not tolerated) had written outputs it did not record; if such an input
+   disappeared its output stayed (third component: the repaired code removes
+   it). Witness replayed on the implementation: corpus/C47/01. *)
+Theorem C47_unfixed_removal_refuted :
+  let s1 := fst (apply_unfixed false w_env false init None [(fa, [120%N])] 0 false) in
+  let s2 := fst (apply_unfixed false w_env false s1 None [(fa, [120%N]); (fb, [121%N]); (fc, bad)] 0 false) in
+  let '(s3, r3) := apply_unfixed false w_env false s2 None [(fa, [120%N])] 0 false in
+  r_err r3 = false /\ out_dir s3 = [(fa, [120%N]); (fb, [121%N])]
+  /\ out_dir (fst (apply false w_env false
+        (fst (apply false w_env false (fst (apply false w_env false init None [(fa, [120%N])] 0 false))
+                    None [(fa, [120%N]); (fb, [121%N]); (fc, bad)] 0 false))
+        None [(fa, [120%N])] 0 false)) = [(fa, [120%N])].
+Proof. exact error_pass_leaves_stale_output. Qed.
+Print Assumptions C47_unfixed_removal_refuted.
+
+(* The Watch loop calls apply once for every event until the context is
+   cancelled ([live] = the events before the first cancellation). *)
+Theorem C47_watch_applies_every_event : forall has_cfg env tolerate s evs,
+  List.length (snd (watch has_cfg env tolerate s evs)) = List.length (live evs).
+Proof. intros. apply watch_applies_every_event. Qed.
+Print Assumptions C47_watch_applies_every_event.
+
+(* After the files stop changing: the first apply whose endpoint script ends in
+   success leaves the reloader settled on the content (nothing pending, content
+   recorded; its outputs are as in C47_apply); from a settled state every later
+   event on the same content is handled without error and without calling the
+   endpoint, and the reloader stays settled. A reload that gave up is retried at
+   the very next event. *)
+Theorem C47_quiescent : forall has_cfg env tolerate cfg dir,
+  NoDup (map fst dir) ->
+  r_err (snd (apply has_cfg env tolerate init cfg dir 0 false)) = false ->
+  (forall s fails s' r,
+     apply has_cfg env tolerate s cfg dir fails false = (s', r) ->
+     r_err r = false /\ settled has_cfg s' cfg dir)
+  /\ (forall s evs, settled has_cfg s cfg dir -> quiet cfg dir evs ->
+     settled has_cfg (fst (watch has_cfg env tolerate s evs)) cfg dir
+     /\ Forall (fun r => r_err r = false /\ r_tried r = false) (snd (watch has_cfg env tolerate s evs))
+     /\ List.length (snd (watch has_cfg env tolerate s evs)) = List.length evs).
+Proof.
+  intros has_cfg env tolerate cfg dir Hnd He. split.
+  - intros s fails s' r H.
+    assert (E : r_err r = false).
+    { pose proof (apply_err_state has_cfg env tolerate s init cfg dir fails false 0 false) as X.
+      rewrite H in X. cbn [snd] in X. congruence. }
+    split; [exact E | eapply apply_settles; eauto].
+  - intros s evs Hs Hq. apply watch_stable; assumption.
+Qed.
+Print Assumptions C47_quiescent.
+
+Theorem C47_retry_next_event : forall has_cfg env tolerate s cfg dir fails s' r cfg2 dir2 f2 g2,
+  apply has_cfg env tolerate s cfg dir fails true = (s', r) ->
+  r_err r = false -> NoDup (map fst dir) -> r_tried r = true ->
+  r_err (snd (apply has_cfg env tolerate s' cfg2 dir2 f2 g2)) = false -> NoDup (map fst dir2) ->
+  r_tried (snd (apply has_cfg env tolerate s' cfg2 dir2 f2 g2)) = true.
+Proof. intros. eapply retry_next; eauto. Qed.
+Print Assumptions C47_retry_next_event.
+
+(* Tie T: the reload decision and the removal guard of apply, and the shape of
+   the endless loop of Watch (its only return is guarded by ctx.Err() != nil;
+   r.apply is called on every other way through the select), are those of the
+   source. *)
+Theorem C47_decision_source : decision_ok = true /\ watch_shape_ok = true.
+Proof. exact (conj decision_fact watch_shape). Qed.
 Print Assumptions C47_decision_source.
 
 (* Non-vacuity: first apply of a fresh reloader: the variable is substituted,
-   the endpoint fails twice, then succeeds. *)
+   the endpoint fails twice, then succeeds; afterwards the reloader is settled
+   and two further events do nothing. *)
 Example C47_nonvacuous :
   let env := env_of [([86%N], [104; 105]%N)] in
-  let '(s', r) := apply true env false init (Some [36; 40; 86; 41; 33]%N) [(fa, [36; 40; 86; 41]%N)] 2 false in
+  let cfg := Some [36; 40; 86; 41; 33]%N in
+  let dir := [(fa, [36; 40; 86; 41]%N)] in
+  let '(s', r) := apply true env false init cfg dir 2 false in
   r_err r = false /\ out_cfg s' = Some [104; 105; 33]%N /\ out_dir s' = [(fa, [104; 105]%N)]
-  /\ r_attempts r = 3%nat /\ synced init.
+  /\ r_attempts r = 3%nat
+  /\ map r_tried (snd (watch true env false s' [(ETick, (cfg, dir), (0%nat, false)); (ENotify, (cfg, dir), (1%nat, true))]))
+     = [false; false].
 Proof. vm_compute. repeat split; reflexivity. Qed.
